@@ -237,6 +237,21 @@ package vm
 // function entry.  Inner loops: 2 = OpArray, 3 = OpHash, 4 = OpCall argument pops,
 // 5 = OpCall parameter binding, 6 = OpRange.
 
+// A user-defined function runs on a stack of its own; the caller's bytecode and stack are back in place
+// however the body is left - by a return, an error or a panic (which Execute turns into an error): C07, C08.
+//@ func (vm *VM) runFunction(obj interface{}, body code.Instructions) (result object.Object, err error)
+//@   requires vmOK(vm) && vm.context != nil && vm.environment.global != nil && scopesOK(vm.environment)
+//@   ensures runfn.same: vm.environment == old(vm.environment) && vm.constants === old(vm.constants) && vm.functions == old(vm.functions) && vm.context == old(vm.context)
+//@   ensures runfn.env: (err == nil ==> vm.fields != nil && fresh(vm.fields)) && vm.environment.global != nil && scopesOK(vm.environment)
+//@   ensures runfn.result: err == nil ==> validObj(result)
+//@   ensures @C07 runfn.frame.stacks: forall s *stack.Stack :: existed(s) ==> s.entries === old(s.entries)
+//@   ensures @C07 runfn.frame.rows: forall a ref :: existed(a) ==> objRowUnchanged(a)
+//@   ensures @C07 @C08 runfn.restore: vm.bytecode === old(vm.bytecode) && vm.stack == old(vm.stack) && vm.depth == old(vm.depth)
+//@   ensures @C06 @C07 runfn.scopes.len: err == nil ==> len(vm.environment.local) == old(len(vm.environment.local))
+//@   onpanic @C07 @C08 runfn.panic.restore: vm.bytecode === old(vm.bytecode) && vm.stack == old(vm.stack) && vm.depth == old(vm.depth)
+//@   recursion guarded depth maxCallDepth
+//@   panics maybe
+
 //@ func (vm *VM) Run(obj interface{}) (result object.Object, err error)
 //@   requires vmOK(vm) && vm.context != nil && vm.environment.global != nil && scopesOK(vm.environment)
 //@   ensures run.same: vm.environment == old(vm.environment) && vm.constants === old(vm.constants) && vm.functions == old(vm.functions) && vm.context == old(vm.context)
@@ -244,15 +259,16 @@ package vm
 //@   ensures run.result: err == nil ==> validObj(result)
 //@   ensures @C07 run.frame.stacks: forall s *stack.Stack :: existed(s) && s != old(vm.stack) ==> s.entries === old(s.entries)
 //@   ensures @C07 run.frame.rows: forall a ref :: existed(a) && a != old(arr(vm.stack.entries)) ==> objRowUnchanged(a)
-//@   ensures @C07 run.bytecode: vm.bytecode === old(vm.bytecode) && vm.stack == old(vm.stack)
+//@   ensures @C07 run.bytecode: vm.bytecode === old(vm.bytecode) && vm.stack == old(vm.stack) && vm.depth == old(vm.depth)
 //@   ensures @C06 @C07 run.scopes.len: err == nil ==> len(vm.environment.local) == old(len(vm.environment.local))
+//@   onpanic @C07 @C08 run.panic.restore: vm.bytecode === old(vm.bytecode) && vm.stack == old(vm.stack) && vm.depth == old(vm.depth)
 //@   panics maybe
 //@ loop 1 invariant run.inv.ip: 0 <= ip
 //@ loop 1 invariant run.inv.ln: ln == len(vm.bytecode)
 //@ loop 1 invariant run.inv.ok: vmOK(vm) && vm.context != nil
 //@ loop 1 invariant run.inv.global: vm.environment.global != nil
 //@ loop 1 invariant run.inv.fields: vm.fields != nil
-//@ loop 1 invariant run.inv.same: vm.stack == entry(vm.stack) && vm.environment == entry(vm.environment) && vm.constants === entry(vm.constants) && vm.bytecode === entry(vm.bytecode) && vm.functions == entry(vm.functions) && vm.context == entry(vm.context)
+//@ loop 1 invariant run.inv.same: vm.depth == entry(vm.depth) && vm.stack == entry(vm.stack) && vm.environment == entry(vm.environment) && vm.constants === entry(vm.constants) && vm.bytecode === entry(vm.bytecode) && vm.functions == entry(vm.functions) && vm.context == entry(vm.context)
 //@ loop 1 invariant run.inv.scopes: scopesOK(vm.environment)
 // OpArray: elements[opArg..n) hold the values popped so far, in push order
 //@ loop 2 invariant arr.inv: 0 <= opArg && opArg <= len(elements) && vmOK(vm) && fresh(elements) && forall j in opArg..len(elements) :: validObj(elements[j])
@@ -393,6 +409,7 @@ package vm
 //@ func (vm *VM) createHash(field reflect.Value) (result object.Object)
 //@   modifies nothing
 //@   ensures @C04 createhash.type: isHash(result) && ptr(result) != 0
+//@   recursion structural on the host value, which is assumed to be acyclic and of moderate depth (JSON-shaped documents; a map that contains itself is not)
 //@   panics maybe
 
 //@ func (vm *VM) createArrayFromSlice(field reflect.Value) (result object.Object)
